@@ -35,6 +35,7 @@ def _check_own(ctx):
     check_counter(ctx, prog, R)
     c04bitmap.check_bitmap(ctx, prog, R)
     check_layout_agreement(ctx, prog, R)
+    check_io_positioned(ctx, prog, R)
     check_scan_compensation(ctx, prog, R)
     check_scan_state(ctx, prog, R)
 
@@ -294,6 +295,32 @@ def _find_exprs(c, pred, out):
     return out
 
 
+def check_io_positioned(ctx, prog, R):
+    """The hash-table file has ONE cursor shared by every call on the map (lookups, the count, other iterators).  So no
+    function of the htx layer may rely on where an earlier call left it: every raw read / write / relative seek in a
+    function of that module is dominated, on success paths, by an absolute seek in the same function."""
+    from .roles import M_HTX
+    seek = R.need("SEEK_START")
+    rel = {f.id for f in (R.get("SEEK_BACK"),) if f is not None}
+    n = 0
+    for f in sorted(prog.fns.values(), key=lambda x: x.id):
+        if f.crate != "abyssiniandb" or f.module != M_HTX or f.kind == "Closure":
+            continue
+        raw = [(b, t) for b, t in f.calls() if not f.is_cleanup(b) and ((t.get("callee") or "").startswith("rabuf::") or any(x.id in rel for x in prog.targets(t, f)[0]))]
+        raw = [(b, t) for b, t in raw if not (t.get("callee") or "").endswith(("::seek_to_end", "::set_len", "::flush", "::sync_all", "::sync_data", "::clear"))
+               and "Seek" not in (t.get("callee") or "").rsplit("::", 2)[-2]]
+        if not raw:
+            continue
+        ctx.touch(f, len(raw))
+        sk = [b for b, t in calls_to(prog, f, target_fn=seek)]
+        bad = [(b, t) for b, t in raw if not any(f.dominates(s_, b) and s_ != b for s_ in sk)]
+        n += len(raw)
+        ctx.check(not bad, "io-positioned", f.name,
+                  "%s reads or writes the hash-table file at wherever an earlier call left the shared cursor (%s is not preceded by an absolute seek on every path)"
+                  % (f.name, (bad[0][1].get("callee") or "?").rsplit("::", 1)[-1] if bad else ""), where=where(f, bad[0][0]) if bad else where(f))
+    ctx.floor("io-positioned", "raw accesses of the hash-table file", n, 9)
+
+
 def check_layout_agreement(ctx, prog, R):
     """Bucket slot address = HEADER + 8*idx in loader, store and scanner; bitmap base = HEADER + 8*n in store, scanner
     and (as part of the length) the open; all with the same header constant."""
@@ -423,7 +450,7 @@ def check(ctx):
     _check_own(ctx)
     from .engine import import_rules
     # size hints and the end of iteration come from the stored item count: it must step with every insert / delete
-    import_rules(ctx, "c05", {"count-writers", "count-step", "count-arm"})
+    import_rules(ctx, "c05", {"count-writers", "count-step", "count-arm", "field-position"})
     import_rules(ctx, "c01", {"op-wiring"})
     # the iterator reads the table size from the header; lookups use the cached one: they must be the same number
     import_rules(ctx, "c07", {"stored-count-wins"})
